@@ -12,7 +12,11 @@ package harness
 // before the tx arrives, for half of the in-between changes — by governance proposals run through
 // the real x/msgfees message handlers (txfee_gov_test.go): usd rate, conversion denom, fees added /
 // updated / removed, one or two messages per proposal, a minority refused by the keeper.  The
-// declared fee is chosen against the configuration the proposals leave behind.
+// declared fee is chosen against the configuration the proposals leave behind — below / at / above
+// it, far above it (`wayabove`: a failed transaction still costs floor x gas only), or at what the
+// messages of voted-down / discarded proposals would have required had they stayed written
+// (`at_discarded_cfg`).  18% of the proposals are discarded branches: accepted schedule changes
+// followed by a last message the keeper refuses.
 
 import (
 	"fmt"
